@@ -171,14 +171,15 @@ def run(tier):
         for kind in kinds:
             exprs = gql.all_type_exprs(kind, 4)
             schema, doc, expected = build_case(kind, position, exprs)
-            for fmt in ("sdl", "json"):
+            for fmt in ("sdl", "json", "sdl_rust"):   # sdl_rust: the SDL again, under normalization = rust (the rule is option-independent)
                 cases.append({"position": position, "kind": kind, "fmt": fmt, "schema": schema, "doc": doc,
                               "expected": expected})
     reqs = []
     for c in cases:
-        text = c["schema"].sdl() if c["fmt"] == "sdl" else c["schema"].introspection()
-        reqs.append(gen_request(text, gql.render_doc(c["doc"]), ext=("graphql" if c["fmt"] == "sdl" else "json"),
-                                inspect=True))
+        text = c["schema"].introspection() if c["fmt"] == "json" else c["schema"].sdl()
+        from genlib import DEFAULT_OPTS
+        reqs.append(gen_request(text, gql.render_doc(c["doc"]), dict(DEFAULT_OPTS, normalization="rust", skip_none=True) if c["fmt"] == "sdl_rust" else None,
+                                ext=("json" if c["fmt"] == "json" else "graphql"), inspect=True))
     resps = generate(reqs)
     states = 0
     transitions = 0
